@@ -27,7 +27,7 @@ PATS = [r'(\w+) (\w+)', r'(\w+)(?: (\w+))?(?: (\w+))?', r'(\S+)', r'(\w+) (\d+)?
         r'[a-z]\w*(?: (\d))?(?: (zz\w+))?', r'\w+(?: (\d+))?$']
 
 
-def gen_words(rng, style, n):
+def gen_words(rng, style, n, fidx=0):
     if style == 'dup':
         pool = ['a', 'b', 'c']
     elif style == 'distinct':
@@ -40,7 +40,9 @@ def gen_words(rng, style, n):
     for k in range(n):
         cnt = rng.choice([1, 2, 2, 3])
         if pool is None:
-            ws = ['d%d_%d' % (k, j) for j in range(cnt)]
+            # distinct per line AND per file: two files never store the same value, so a store
+            # index shared by two workers cannot go unnoticed
+            ws = ['d%d_%d_%d' % (fidx, k, j) for j in range(cnt)]
         else:
             ws = [rng.choice(pool) for _ in range(cnt)]
         if rng.random() < 0.2:
@@ -60,7 +62,7 @@ def gen_scenario(rng, tier, multi):
         else:
             n = rng.choice([0, 3, 10, 40, 120])
         files.append({'name': f'f{k}.txt',
-                      'content': gen.assemble(rng, gen_words(rng, style, n)).hex()})
+                      'content': gen.assemble(rng, gen_words(rng, style, n, k)).hex()})
     defs = []
     for _ in range(rng.choice([1, 2, 3])):
         if rng.random() < 0.25:
